@@ -9,6 +9,7 @@ import (
 	"golang.org/x/tools/go/ssa"
 
 	"verif/checker/internal/core"
+	"verif/checker/internal/yacc"
 )
 
 // loadRoots: the LOAD entry set.
@@ -84,6 +85,7 @@ func C14(ctx *core.Ctx, r *core.Report) {
 	fixedBuffer(ctx, r, e.reach, c14OutOfScope, nil, 2)
 	c14ModuleXorError(ctx, r)
 	c14GuardBacking(ctx, r)
+	c14WorklistGuard(ctx, r)
 	// an import of a submodule that is not merged is never resolved: its module stays nil
 	c01SubmoduleMergeComplete(ctx, r)
 	c14Recursion(ctx, r, roots)
@@ -91,6 +93,7 @@ func C14(ctx *core.Ctx, r *core.Report) {
 	// a failed builder call leaves nil on the parser's stack unless the action stops the parse
 	if g := loadGrammar(ctx, r, "parser/parser.y"); g != nil {
 		c06BuilderErrorChecked(ctx, r, g)
+		c14GrammarContexts(ctx, r, g)
 	}
 }
 
@@ -347,4 +350,210 @@ var c14ParallelTriage = map[string]string{}
 
 var c14LexTriage = map[string]string{
 	"parser.lexer.nextToken/loop1": "the driver loop: each turn runs one state function, which either emits a token (the next turn returns it), returns the error state (which emits the error token) or returns nil (the next turn returns EOF); the state functions' own loops are the obligations above",
+}
+
+// grammarContexts: the keywords of the statements inside whose braces the
+// statement introduced by keyword token `kw` can occur, computed from the
+// productions: from every alternative that mentions kw, climb through the
+// body/list non-terminals to the alternative that pairs the body with a *_def
+// non-terminal, and take the keywords that *_def begins with.
+func grammarContexts(g *yacc.Grammar, kw string) map[string]bool {
+	out := map[string]bool{}
+	seen := map[string]bool{}
+	defKeywords := func(def string) []string {
+		var ks []string
+		if ru := g.ByName[def]; ru != nil {
+			for _, a := range ru.Alts {
+				for _, s := range a.Syms {
+					if strings.HasPrefix(s.Name, "kywd_") {
+						ks = append(ks, strings.TrimPrefix(s.Name, "kywd_"))
+						break
+					}
+				}
+			}
+		}
+		return ks
+	}
+	var climb func(name string)
+	climb = func(name string) {
+		if seen[name] {
+			return
+		}
+		seen[name] = true
+		for _, ru := range g.Rules {
+			for _, a := range ru.Alts {
+				has := false
+				for _, s := range a.Syms {
+					if s.Name == name {
+						has = true
+					}
+				}
+				if !has {
+					continue
+				}
+				def := ""
+				for _, s := range a.Syms {
+					if strings.HasSuffix(s.Name, "_def") && s.Name != name {
+						def = s.Name
+					}
+				}
+				if def != "" {
+					for _, k := range defKeywords(def) {
+						out[k] = true
+					}
+					continue
+				}
+				if ru.Name == name {
+					continue
+				}
+				// the alternative itself starts a statement with its own keyword and braces
+				own := ""
+				curly := false
+				for _, s := range a.Syms {
+					if strings.HasPrefix(s.Name, "kywd_") && own == "" && s.Name != name {
+						own = strings.TrimPrefix(s.Name, "kywd_")
+					}
+					if s.Name == "token_curly_open" {
+						curly = true
+					}
+				}
+				if own != "" && curly {
+					out[own] = true
+					continue
+				}
+				climb(ru.Name)
+			}
+		}
+	}
+	climb(kw)
+	return out
+}
+
+// c14GrammarContexts backs the triage reasons that say "this statement occurs only
+// inside …" with the productions of parser.y: a reason that stops being true (the
+// grammar starts to accept the statement elsewhere) makes the triaged crash site live.
+func c14GrammarContexts(ctx *core.Ctx, r *core.Report, g *yacc.Grammar) {
+	type claim struct {
+		kw      string
+		only    []string // contexts must be a subset of these (nil: not used)
+		never   []string // contexts must not contain these
+		backing string
+	}
+	claims := []claim{
+		{kw: "kywd_revision_date", only: []string{"import", "include"}, backing: "Builder.SetRevisionDate panics on any other parent"},
+		{kw: "kywd_type", never: []string{"anyxml", "anydata"}, backing: "Any.setType panics"},
+		{kw: "kywd_default", never: []string{"anyxml", "anydata"}, backing: "Any.addDefault panics"},
+		{kw: "kywd_units", never: []string{"anyxml", "anydata"}, backing: "Any.setUnits panics"},
+	}
+	for _, c := range claims {
+		if _, ok := g.TokIndex[c.kw]; !ok {
+			r.Ob("grammar-context", c.kw, g.File, false, "token "+c.kw+" is no longer declared in the grammar")
+			continue
+		}
+		cx := grammarContexts(g, c.kw)
+		var got []string
+		for k := range cx {
+			got = append(got, k)
+		}
+		sort.Strings(got)
+		ok := len(cx) > 0
+		if c.only != nil {
+			allowed := map[string]bool{}
+			for _, k := range c.only {
+				allowed[k] = true
+			}
+			for k := range cx {
+				if !allowed[k] {
+					ok = false
+				}
+			}
+		}
+		for _, k := range c.never {
+			if cx[k] {
+				ok = false
+			}
+		}
+		r.Ob("grammar-context", c.kw, g.File, ok,
+			fmt.Sprintf("the grammar accepts %s inside %v; the triaged crash site relies on it occurring only where the builder can take it (%s)", strings.TrimPrefix(c.kw, "kywd_"), got, c.backing))
+	}
+}
+
+// c14WorklistGuard: resolver.fillInRecursiveDefs is a worklist loop — while it
+// replaces placeholders of recursive uses it queues new ones. It terminates
+// because a (parent, uses) placeholder can be queued only once: every append to
+// the queue inside the loop is dominated by a lookup in a visited table whose
+// found-edge returns an error, and the pair is entered into that table. Without
+// this guard a grouping that refers to itself with no data node in between
+// (g uses h, h uses g) is replaced by itself for ever.
+func c14WorklistGuard(ctx *core.Ctx, r *core.Report) {
+	f := ctx.Method("meta", "resolver", "fillInRecursiveDefs")
+	if f == nil {
+		r.Fatalf("anchor meta.resolver.fillInRecursiveDefs not found")
+		return
+	}
+	n := 0
+	core.Instrs(f, func(b *ssa.BasicBlock, in ssa.Instruction) {
+		st, ok := in.(*ssa.Store)
+		if !ok {
+			return
+		}
+		fa, ok := st.Addr.(*ssa.FieldAddr)
+		if !ok {
+			return
+		}
+		sts, ok := core.Deref(fa.X.Type()).Underlying().(*types.Struct)
+		if !ok || sts.Field(fa.Field).Name() != "unresolvedUses" {
+			return
+		}
+		c, ok := core.Strip(st.Val).(*ssa.Call)
+		if !ok {
+			return
+		}
+		if bi, ok := c.Common().Value.(*ssa.Builtin); !ok || bi.Name() != "append" {
+			return
+		}
+		if loopBlocks(b) == nil {
+			return
+		}
+		n++
+		guarded := false
+		for _, pc := range core.PathConds(b) {
+			// `_, again := visited[k]` on the not-found side
+			ex, ok := pc.V.(*ssa.Extract)
+			if !ok || ex.Index != 1 || pc.True {
+				continue
+			}
+			lk, ok := ex.Tuple.(*ssa.Lookup)
+			if !ok {
+				continue
+			}
+			// the found side returns an error
+			errOnFound := false
+			if len(pc.If.Block().Succs) == 2 {
+				for _, ret := range core.Returns(f) {
+					if pc.If.Block().Succs[0].Dominates(ret.Block()) || pc.If.Block().Succs[0] == ret.Block() {
+						ops := core.RetOperands(ret)
+						if len(ops) > 0 && !core.IsNilConst(ops[len(ops)-1]) {
+							errOnFound = true
+						}
+					}
+				}
+			}
+			// and the pair is recorded in the same table before it is queued
+			recorded := false
+			core.Instrs(f, func(b2 *ssa.BasicBlock, in2 ssa.Instruction) {
+				if mu, ok := in2.(*ssa.MapUpdate); ok && mu.Map == lk.X && (b2 == b || b2.Dominates(b)) {
+					recorded = true
+				}
+			})
+			if errOnFound && recorded {
+				guarded = true
+			}
+		}
+		r.Ob("guard-backing", "meta.resolver.fillInRecursiveDefs/requeue-once", ctx.Pos(st.Pos()), guarded,
+			"a placeholder of a recursive uses is queued again without the test that this (parent, uses) pair was queued before: a grouping that refers to itself with no data node in between is replaced by itself for ever and the load never returns")
+	})
+	if n == 0 {
+		r.Fatalf("fillInRecursiveDefs no longer re-queues placeholders inside its loop: the worklist guard rule is vacuous")
+	}
 }
